@@ -28,6 +28,18 @@ pub fn graph2<K: SymK, const L0: usize, const L1: usize>(
     let mut g: BaseGraph<K, u8> = BaseGraph::new(stranded);
     g.add(s0.iter(), e0, kani::any());
     g.add(s1.iter(), e1, kani::any());
+    // index validity (precondition of the perfect hash the real graph is built on): the first
+    // k-mers of the nodes are pairwise distinct, and so are the last k-mers
+    let k = K::k();
+    let mut same_first = true;
+    let mut same_last = true;
+    let mut j = 0;
+    while j < k {
+        same_first &= s0[j] == s1[j];
+        same_last &= s0[L0 - k + j] == s1[L1 - k + j];
+        j += 1;
+    }
+    kani::assume(!same_first && !same_last);
     (g.finish_serial(), s0, s1, e0, e1)
 }
 
